@@ -8,6 +8,8 @@ let () =
     | "C04" -> Dec.run_case
     | "C05" -> C05.run_case
     | "C02" -> C02.run_case
+    | "C13" -> C13.run_c13
+    | "C03" -> C13.run_c03
     | _ -> prerr_endline ("unknown property " ^ prop); exit 2 in
   List.iter
     (fun l ->
